@@ -163,6 +163,13 @@ def endless_heads():
     many = line + b''.join(b'H%d: v\r\n' % i for i in range(130)) + b'\r\n'
     out.append(('125headers', [many]))
     out.append(('noterm', [line + b'Host: x\r\n' + b'A' * 3000]))
+    # a head that stays Partial for ever (one endless header value): only the guard can stop it
+    long_ = line + b'X-Long: ' + b'a' * 200000
+    out.append(('long4096', [long_[i:i + 4096] for i in range(0, 4096 * 18, 4096)]))
+    out.append(('longslow128', [long_[i * 128:(i + 1) * 128] for i in range(64)] + [long_[8192 + i * 4096: 8192 + (i + 1) * 4096] for i in range(20)]))
+    out.append(('longslow200', [long_[i * 200:(i + 1) * 200] for i in range(70)] + [long_[14000 + i * 4096: 14000 + (i + 1) * 4096] for i in range(18)]))
+    out.append(('long1024', [long_[i * 1024:(i + 1) * 1024] for i in range(72)]))
+    out.append(('long128', [long_[i * 128:(i + 1) * 128] for i in range(520)]))
     out.append(('slow128', [big[i * 128:(i + 1) * 128] for i in range(64)] + [big[8192 + i * 4096: 8192 + (i + 1) * 4096] for i in range(20)]))
     out.append(('slow200', [big[i * 200:(i + 1) * 200] for i in range(70)] + [big[14000 + i * 4096: 14000 + (i + 1) * 4096] for i in range(18)]))
     out.append(('k1024', [big[i * 1024:(i + 1) * 1024] for i in range(72)]))
